@@ -29,7 +29,7 @@ SHARE = ["filter", "sort", "unique", "head", "tail", "slice", "copy", "reverse",
          "append", "extend", "insert", "add", "mul", "drop_na", "clear", "group_by"]
 EDIT = ["modify", "modify_if", "modify_nested", "rename", "select", "unselect", "fill", "fill_all", "inner_join", "left_join"]
 FAILING = ["modify_failing"]
-USE = ["pluck", "keys", "to_json"]
+USE = ["pluck", "keys", "to_json", "aggregate_editing"]
 
 
 @st.composite
@@ -198,7 +198,7 @@ def check(plan, ctx):
                 ctx.cls("op_forget")
             continue
         x, y = node.real, other.real
-        needs_k = op in ("semi_join", "anti_join", "inner_join", "left_join", "full_join", "sort", "unique", "modify_if")
+        needs_k = op in ("semi_join", "anti_join", "inner_join", "left_join", "full_join", "sort", "unique", "modify_if", "aggregate_editing")
         may_raise = False
         ykey = "kk" if (_BY[0] != "k" and "join" in op) else "k"
         if needs_k and not (_has_k(x) and (all(ykey in it for it in list.__iter__(y)) or "join" not in op)):
@@ -397,6 +397,14 @@ def _apply(op, x, y, a, fresh_item):
             yk = "kk" if _BY[0] != "k" else "k"
             y = di.ListOfDicts([{yk: it[yk]} for it in list.__iter__(y)])
         return x.left_join(y, _BY[0])
+    if op == "aggregate_editing":
+        # a summary function that edits the group list it was handed (its own copy to play with): the aggregated list,
+        # its ancestors and relatives keep their items
+        g0 = x._group_keys
+        try:
+            return list(x.group_by("k").aggregate(n=lambda g: len(g.modify(w=lambda it: a).unselect("p"))))
+        finally:
+            x._group_keys = g0
     if op == "pluck": return x.pluck("_id")
     if op == "keys": return list(x.keys())
     if op == "to_json": return x.to_json()
